@@ -1065,6 +1065,11 @@ def do_extract(spec, cnt, exc_types, info):
         ret = 'void'
     dummy = Counter()
     ret = rw_quals(ret, dummy)
+    # R17: a template-id in a parameter type (`RefVectorOf<KVStringPair>& toFill`) is mangled to an identifier
+    # (`RefVectorOf_KVStringPair`); the unit supplies that type (a sink / model of the container)
+    params, ntid = re.subn(r'\b([A-Za-z_]\w*)\s*<\s*([A-Za-z_]\w*)\s*>', r'\1_\2', params)
+    if ntid:
+        cnt.hit('R17_template_id_param', ntid)
     cparams, refs = convert_params(rw_quals(params, dummy), cnt)
     if spec['selfparam']:
         sp = 'struct %s* self' % spec['selfparam']
